@@ -100,7 +100,12 @@ type handlerSet struct {
 // genHandlers builds transparent handlers behind JP pads in the low page
 // (RST targets, 0x0066), a mode-2 target with its table entry and a mode-0
 // CALL target.
-func genHandlers(r *world.Rng, mode int) handlerSet {
+func genHandlers(r *world.Rng, mode int) handlerSet { return genHandlersAt(r, mode, 0) }
+
+// genHandlersAt: callAt != 0 places the mode-0 CALL target at that address
+// (e.g. right behind the program's final HALT, so that an acceptance while
+// parked lands directly in front of its own service routine).
+func genHandlersAt(r *world.Rng, mode int, callAt uint16) handlerSet {
 	var hs handlerSet
 	haddr := uint16(c07HBase)
 	place := func(pad uint16, nmi bool) {
@@ -124,6 +129,9 @@ func genHandlers(r *world.Rng, mode int) handlerSet {
 	t2 := haddr
 	place(0xffff, false)
 	tc := haddr
+	if callAt != 0 {
+		haddr, tc = callAt, callAt
+	}
 	place(0xffff, false)
 	vec := uint8(r.Intn(128) * 2)
 	hs.Table = []world.Seg{world.MkSeg(uint16(c07Table)|uint16(vec), []uint8{uint8(t2), uint8(t2 >> 8)})}
@@ -172,7 +180,11 @@ func (c07) Gen(r *world.Rng, tier string, n int) interface{} {
 	}
 	sc.Prog = *p
 
-	hs := genHandlers(r, mode)
+	callAt := uint16(0)
+	if mode == 0 && r.Chance(1, 3) {
+		callAt = p.HaltAddr + 3 // CALL nn (3 bytes) accepted while parked on HALT: PC+len == nn
+	}
+	hs := genHandlersAt(r, mode, callAt)
 	sc.Handlers, sc.Table, sc.Pushes, sc.HSteps = hs.Handlers, hs.Table, hs.Pushes, hs.HSteps
 	kinds := hs.Kinds
 	if n%4 != 3 {
